@@ -3,10 +3,12 @@
 undo; any check that fires is a false alarm of the machinery."""
 import subprocess, sys, os, glob, json
 env = dict(os.environ, GOFLAGS='-mod=mod', GOPROXY='off', GOSUMDB='off', GOTOOLCHAIN='local'); env.pop('GOWORK', None)
-env['GZV_EVIDENCE_DIR'] = '/tmp/gzv-evidence-scratch'
-base = sys.argv[1]
+REPO = os.environ.get('GZV_REPO', '/repo')  # a scratch worktree can stand in for /repo (development only)
+env['GZV_REPO'] = REPO
+env['GZV_EVIDENCE_DIR'] = os.environ.get('GZV_EVIDENCE_DIR', '/tmp/gzv-evidence-scratch')
+base = os.path.abspath(sys.argv[1])
 props = ['C%02d' % i for i in range(1, 21)]
-if subprocess.run(['git', 'diff', '--quiet'], cwd='/repo').returncode != 0:
+if subprocess.run(['git', 'diff', '--quiet'], cwd=REPO).returncode != 0:
     print('/repo dirty'); sys.exit(2)
 total = alarms = 0
 def _key(p):
@@ -15,19 +17,19 @@ def _key(p):
     return (m.group(1), int(m.group(2))) if m else (n, 0)
 for d in sorted(glob.glob(base + '/*/patch.diff'), key=_key):
     k = os.path.basename(os.path.dirname(d))
-    if subprocess.run(['git', 'apply', '--check', d], cwd='/repo', capture_output=True).returncode != 0:
+    if subprocess.run(['git', 'apply', '--check', d], cwd=REPO, capture_output=True).returncode != 0:
         print(k, 'does not apply'); continue
-    subprocess.run(['git', 'apply', d], cwd='/repo', check=True)
+    subprocess.run(['git', 'apply', d], cwd=REPO, check=True)
     fired = []
     try:
-        procs = [(p, subprocess.Popen(['bin/gzverify', '-prop', p, '-tier', 'quick'], cwd='/verif', env=env, stdout=subprocess.PIPE, stderr=subprocess.STDOUT, text=True)) for p in props]
+        procs = [(p, subprocess.Popen([os.environ.get('GZV_BIN', 'bin/gzverify'), '-prop', p, '-tier', 'quick'], cwd='/verif', env=env, stdout=subprocess.PIPE, stderr=subprocess.STDOUT, text=True)) for p in props]
         for p, pr in procs:
             out, _ = pr.communicate()
             if pr.returncode != 0:
                 lines = [l for l in out.splitlines() if not l.startswith('    ') and (' violated [' in l or ' undecided [' in l)]
                 fired.append((p, lines[:3]))
     finally:
-        subprocess.run(['git', 'checkout', '--', '.'], cwd='/repo')
+        subprocess.run(['git', 'checkout', '--', '.'], cwd=REPO)
     total += 1
     files = [l[6:].strip() for l in open(d) if l.startswith('+++ b/')]
     if fired:
